@@ -131,6 +131,7 @@ fn run_case(case: &Value) -> Value {
         .fail_rate(cfg["fail"].as_f64().unwrap())
         .repair_rate(cfg["repair"].as_f64().unwrap())
         .udp_capacity(4096)
+        .tcp_capacity(cfg["tcp_cap"].as_u64().unwrap_or(64) as usize)
         .simulation_duration(Duration::from_secs(3600));
     if cfg["random_order"].as_bool().unwrap_or(false) {
         b.enable_random_order();
@@ -194,8 +195,14 @@ fn run_case(case: &Value) -> Value {
                                 loop {
                                     match s.read_exact(&mut frame).await {
                                         Ok(_) => tcp_recv.borrow_mut().push(json!([
-                                            *step_no.borrow(), h, u64::from_le_bytes(frame), host_index(peer.ip(), &ips)])),
-                                        Err(_) => break,
+                                            *step_no.borrow(), h, u64::from_le_bytes(frame), host_index(peer.ip(), &ips), peer.port()])),
+                                        Err(e) => {
+                                            tcp_recv.borrow_mut().push(json!([
+                                                *step_no.borrow(), h,
+                                                if e.kind() == std::io::ErrorKind::UnexpectedEof { "eof" } else { "err" },
+                                                host_index(peer.ip(), &ips), peer.port()]));
+                                            break;
+                                        }
                                     }
                                 }
                             });
@@ -236,12 +243,19 @@ fn run_case(case: &Value) -> Value {
                                     let st = *step_no.borrow();
                                     match r {
                                         Ok(s) => {
+                                            let port = s.local_addr().map(|a| a.port()).unwrap_or(0);
                                             conns.borrow_mut().insert(cid, Rc::new(s));
-                                            tcp_ev.borrow_mut().push(json!([st, h, "connected", cid, ""]));
+                                            tcp_ev.borrow_mut().push(json!([st, h, "connected", cid, format!("{port}")]));
                                         }
                                         Err(e) => tcp_ev.borrow_mut().push(json!([st, h, "connect_err", cid, vharness::err_kind(&e)])),
                                     }
                                 });
+                            }
+                            "tcp_shutdown" => {
+                                // drop the only handle: the stream (both halves) is dropped, which sends FIN
+                                let cid = cmd[1].as_u64().unwrap();
+                                let had = conns.borrow_mut().remove(&cid).is_some();
+                                tcp_ev.borrow_mut().push(json!([*step_no.borrow(), h, if had { "closed" } else { "no_conn" }, cid, ""]));
                             }
                             "tcp_write" => {
                                 let cid = cmd[1].as_u64().unwrap();
